@@ -66,6 +66,14 @@ class Entropy:
                 return 10000 + v % 55536
         return v
 
+    def randbelow(self, n: int) -> int:
+        self.draws += 1
+        return self.rng.randrange(n)
+
+    def token_bytes(self, nbytes: Optional[int] = None) -> bytes:
+        self.draws += 1
+        return bytes(self.rng.getrandbits(8) for _ in range(32 if nbytes is None else nbytes))
+
     def token_urlsafe(self, nbytes: Optional[int] = None) -> str:
         import base64
 
@@ -190,6 +198,12 @@ def install(torch_stub: bool = True, quiet_logging: bool = True):
 
     secrets.randbits = lambda k: ENTROPY.randbits(k)  # noqa: E731
     secrets.token_urlsafe = lambda n=None: ENTROPY.token_urlsafe(n)  # noqa: E731
+    # the rest of the secrets API is owned too, so that any new use of it is repeatable per run and differs between
+    # entropy streams (an unseeded choice then shows up as a C03 divergence instead of passing by luck)
+    secrets.randbelow = lambda n: ENTROPY.randbelow(n)  # noqa: E731
+    secrets.choice = lambda seq: seq[ENTROPY.randbelow(len(seq))]  # noqa: E731
+    secrets.token_bytes = lambda n=None: ENTROPY.token_bytes(n)  # noqa: E731
+    secrets.token_hex = lambda n=None: ENTROPY.token_bytes(n).hex()  # noqa: E731
     INSTALL_LOG.append("secrets:seamed")
 
     import primaite  # noqa: F401
@@ -215,9 +229,18 @@ def install(torch_stub: bool = True, quiet_logging: bool = True):
     _INSTALLED = True
 
 
-def begin_run(entropy_seed: int, clock_script: Optional[Dict] = None, id_width: str = "mixed", logging_on: bool = False):
-    """Reset the run-owned streams; called in the (forked or exec'ed) run process before any primaite object exists."""
+def begin_run(entropy_seed: int, clock_script: Optional[Dict] = None, id_width: str = "mixed", logging_on: bool = False, rng_seed: Optional[int] = None):
+    """Reset the run-owned streams; called in the (forked or exec'ed) run process before any primaite object exists.
+
+    The process-global RNGs (random, numpy.random) are seeded here as well: an interpreter seeds them from os.urandom at
+    start-up, and PrimAITE only re-seeds them when a scenario carries game.seed (the request-level bench never does)."""
     import logging
+
+    import numpy as _np
+
+    g = entropy_seed if rng_seed is None else rng_seed
+    random.seed(g % (2**32))
+    _np.random.seed(g % (2**32))
 
     ENTROPY.reseed(entropy_seed, id_width)
     CLOCK.load(clock_script or {})
